@@ -2,3 +2,4 @@
 import UF.Props.C11Compose
 import UF.Props.C01Compose
 import UF.Props.C02Compose
+import UF.Props.C15Compose
